@@ -28,6 +28,28 @@ TRANSPARENT_CALLS = {
 }
 
 
+def _try_of(x):
+    """the value `x?` continues with.  When x is a Result / Option that was built in this very body (a helper that
+    was spliced in: `Ok(v)` on one path, an early error return on the others) the value is what was wrapped - the
+    error alternatives do not continue."""
+    alts = x[1] if x[0] == "phi" else (x,)
+    oks, rest = [], []
+    for a in alts:
+        if a[0] == "agg" and a[1].rsplit("::", 1)[-1] in ("Ok", "Some") and len(a[2]) == 1:
+            oks.append(a[2][0])
+        elif (a[0] == "call" and a[1].endswith("FromResidual::from_residual")) or (a[0] == "agg" and a[1].rsplit("::", 1)[-1] in ("Err", "None")):
+            continue
+        else:
+            rest.append(a)
+    if oks and not rest:
+        uniq = []
+        for o in oks:
+            if o not in uniq:
+                uniq.append(o)
+        return uniq[0] if len(uniq) == 1 else ("phi", tuple(uniq))
+    return ("try", x)
+
+
 class Origins:
     def __init__(self, body, fb=None, max_depth=40, overrides=None):
         self.body = body
@@ -120,7 +142,7 @@ class Origins:
         return ("unknown", op.get("dbg", "?"))
 
     def _named_literal(self, path):
-        """a named constant whose body is one integer literal stands for that literal (`const LIMB_BITS: u32 = 32`)"""
+        """a named constant whose body is one integer or string literal stands for that literal (`const LIMB_BITS: u32 = 32`)"""
         fb = self.fb
         cb = getattr(fb, "by_path", {}).get(path) if fb is not None else None
         if cb is None or cb.kind != "const" or path.startswith("hvwitness::"):
@@ -132,6 +154,8 @@ class Origins:
                     r = st["r"]
                     if r["k"] == "use" and r["x"]["k"] == "const" and "int" in r["x"] and "uneval" not in r["x"]:
                         vals.append(("const", r["x"]["ty"], int(r["x"]["int"])))
+                    elif r["k"] == "use" and r["x"]["k"] == "const" and "str" in r["x"] and "uneval" not in r["x"]:
+                        vals.append(("const", "&str", r["x"]["str"]))
                     else:
                         return None
                 elif st["k"] == "assign":
@@ -145,7 +169,15 @@ class Origins:
             return ("fnitem", callee_name(op["fn"], self.fb))
         if "uneval" in op and "promoted" not in op:
             lit = self._named_literal(op["uneval"])
-            return lit if lit is not None else ("named", op["uneval"])
+            if lit is not None:
+                return lit
+            if not op["uneval"].startswith("hvwitness::"):
+                # a named constant the compiler has already evaluated (`const AREA_CHARS: &str = ".."`, `const N: u32 = 32`)
+                if "int" in op:
+                    return ("const", op["ty"], int(op["int"]))
+                if "str" in op:
+                    return ("const", "&str", op["str"])
+            return ("named", op["uneval"])
         if "uneval" in op and "promoted" in op:
             return ("promoted", op["uneval"], op["promoted"])
         if "int" in op:
@@ -193,7 +225,7 @@ class Origins:
             v = cur[1]
             inner = cur[2]
             if v == "Continue" and inner[0] == "call" and inner[1] == "core::ops::try_trait::Try::branch":
-                return ("try", inner[2][0])
+                return _try_of(inner[2][0])
             if v in ("Some", "Ok", "Err", "Break", "Continue"):
                 return (v.lower(), inner)
         if name.startswith("upvar:"):
